@@ -19,6 +19,7 @@ import itertools
 import json
 import os
 import random
+import select
 import shutil
 import stat
 import subprocess
@@ -42,6 +43,7 @@ TRUSTED = [
 ]
 
 PY = "/venv/bin/python"
+HANG_S = 15
 FILEISH = {"file", "link-file", "link-link-file", "rel-link-file", "noread", "baddecode"}
 PROJ_KINDS = ["file", "absent", "dir", "link-file", "link-link-file", "rel-link-file", "link-dir", "dangling", "loop",
               "fifo", "noread", "link-denied", "baddecode"]
@@ -59,9 +61,14 @@ CS_PROJ_DENIED = "dippy/core/config.py:_find_project_config:is_file"
 
 # ------------------------------------------------------------------------------------------------ texts
 class Texts:
+    """Layer texts are generated with the placeholder @ROOT@ for the scratch root (so that a replay file is
+    valid in another scratch root); check_case substitutes it."""
+
     def __init__(self, root):
-        self.out = os.path.join(root, "out")
+        self.real_out = os.path.join(root, "out")
         self.logs = os.path.join(root, "logs")
+        self.out = "@ROOT@/out"
+        self.gen_logs = "@ROOT@/logs"
 
     def layer(self, rng, who, tag, dec, full=False):
         """One layer's config text.  who: u|p|e, tag: shown in messages, dec: this layer's opinion on everything shared."""
@@ -80,8 +87,8 @@ class Texts:
         if who == "p":
             lines += [f'after pafter "{tag}"']
         if not full:
-            if rng.random() < 0.45:
-                lines.append(f"set log {self.logs}/{who}.log")
+            if rng.random() < 0.35:
+                lines.append(f"set log {self.gen_logs}/{who}.log")
             if rng.random() < 0.3:
                 lines.append("set log-full")
             if rng.random() < 0.35:
@@ -109,7 +116,7 @@ def probes(tx: Texts):
     sh = lambda name, cmd, ev="PreToolUse": Probe(name, "Bash", {"command": cmd}, ev)  # noqa: E731
     return [
         sh("zap", "zap x"), sh("u_only", "u_only x"), sh("p_only", "p_only x"), sh("e_only", "e_only x"),
-        sh("alias", "myz x"), sh("redirect", f"echo hi > {tx.out}/shared.txt"),
+        sh("alias", "myz x"), sh("redirect", f"echo hi > {tx.real_out}/shared.txt"),
         Probe("mcp", "mcp__srv__shared", {}),
         sh("after", "zap x", "PostToolUse"), sh("pafter", "pafter x", "PostToolUse"),
         Probe("after-mcp", "mcp__srv__shared", {}, "PostToolUse"),
@@ -145,6 +152,7 @@ class World:
         self.worker = None
         self.locked = []  # paths chmod 000, restored before removal
         self.concat_cache = {}
+        self.concat_log_cache = {}
         self.hook_runs = 0
 
     def _probe_capdrop(self):
@@ -180,6 +188,12 @@ class World:
     def ask(self, **req):
         self.worker.stdin.write(json.dumps(req) + "\n")
         self.worker.stdin.flush()
+        ready, _, _ = select.select([self.worker.stdout], [], [], HANG_S)
+        if not ready:                       # the real code hangs (e.g. it opened a fifo): that is an answer too
+            self.worker.kill()
+            self.worker.wait()
+            self.start_worker()
+            return {"crash": "hang"}
         line = self.worker.stdout.readline()
         if not line:
             raise RuntimeError("c10 worker died")
@@ -199,9 +213,12 @@ class World:
         if envv is not None:
             env["DIPPY_CONFIG"] = envv
         pcwd = cwd if via == "process" else (proc_cwd or os.path.join(self.root, "procwd"))
-        r = subprocess.run(self.pre() + [PY, os.path.join(lib.REPO, "bin", "dippy-hook")], input=json.dumps(d),
-                           capture_output=True, text=True, env=env, cwd=pcwd, timeout=120)
         self.hook_runs += 1
+        try:
+            r = subprocess.run(self.pre() + [PY, os.path.join(lib.REPO, "bin", "dippy-hook")], input=json.dumps(d),
+                               capture_output=True, text=True, env=env, cwd=pcwd, timeout=HANG_S)
+        except subprocess.TimeoutExpired:
+            return "hang"
         return canonical(r.stdout)
 
     def clear_logs(self):
@@ -219,26 +236,51 @@ class World:
                 out[f] = f"unreadable log: {type(e).__name__}"
         return out
 
-    def run_vector(self, cwd, via, home, envv, with_log):
+    def submit_vector(self, cwd, via, home, envv):
+        """Start the probe runs; returns a thunk that waits for them."""
         ps = probes(self.tx)
         futs = [self.pool.submit(self.hook, p, cwd, via, home, envv) for p in ps]
-        vec = {p.name: f.result() for p, f in zip(ps, futs)}
-        if with_log:
-            self.clear_logs()
-            vec["log:answer"] = self.hook(ps[0], cwd, via, home, envv)
-            vec["log:files"] = json.dumps(self.read_logs(), sort_keys=True)
-            self.clear_logs()
+        return lambda: {p.name: f.result() for p, f in zip(ps, futs)}
+
+    def log_probe(self, cwd, via, home, envv):
+        """Which decision-log files one run writes and with which fields (nothing else may be running)."""
+        self.clear_logs()
+        vec = {"log:answer": self.hook(probes(self.tx)[0], cwd, via, home, envv)}
+        vec["log:files"] = json.dumps(self.read_logs(), sort_keys=True)
+        self.clear_logs()
         return vec
 
-    def concat_vector(self, text, with_log):
-        key = lib.sha([text, with_log])
-        if key not in self.concat_cache:
-            home = os.path.join(self.root, "chome", key)
-            os.makedirs(os.path.join(home, ".dippy"), exist_ok=True)
+    def concat_home(self, text):
+        key = lib.sha(text)
+        home = os.path.join(self.root, "chome", key)
+        if not os.path.isdir(home):
+            os.makedirs(os.path.join(home, ".dippy"))
             with open(os.path.join(home, ".dippy", "config"), "w", encoding="utf-8") as f:
                 f.write(text)
-            self.concat_cache[key] = self.run_vector(os.path.join(self.root, "neutral"), "json", home, None, with_log)
-        return self.concat_cache[key]
+        return key, home
+
+    def submit_concat(self, text):
+        key, home = self.concat_home(text)
+        if key in self.concat_cache:
+            return lambda: self.concat_cache[key]
+        thunk = self.submit_vector(os.path.join(self.root, "neutral"), "json", home, None)
+
+        def collect():
+            self.concat_cache[key] = thunk()
+            return self.concat_cache[key]
+        return collect
+
+    def concat_log_probe(self, text):
+        key, home = self.concat_home(text)
+        if key not in self.concat_log_cache:
+            self.concat_log_cache[key] = self.log_probe(os.path.join(self.root, "neutral"), "json", home, None)
+        return self.concat_log_cache[key]
+
+    def concat_vector(self, text, with_log):
+        vec = dict(self.submit_concat(text)())
+        if with_log:
+            vec.update(self.concat_log_probe(text))
+        return vec
 
     def close(self):
         try:
@@ -519,7 +561,7 @@ def mk_spec(rng, tx: Texts, i, depth=None, kinds=None, user="file", env="file", 
     }
 
 
-def systematic(rng, tx, capdrop_ok):
+def systematic(rng, tx, capdrop_ok, quick=True):
     specs = []
     add = lambda **kw: specs.append(mk_spec(rng, tx, len(specs), **kw))  # noqa: E731
     ok = lambda k: capdrop_ok or k not in NEEDS_CAPDROP  # noqa: E731
@@ -538,7 +580,8 @@ def systematic(rng, tx, capdrop_ok):
         if ok(k):
             add(depth=2, kinds=[k, "absent", "absent"])
             add(depth=2, kinds=[k, "file", "absent"])
-            add(depth=3, kinds=["absent", k, "absent", "file"])
+            if not quick:
+                add(depth=3, kinds=["absent", k, "absent", "file"])
     # every kind of user config and of $DIPPY_CONFIG
     for k in USER_KINDS:
         if ok(k):
@@ -549,7 +592,7 @@ def systematic(rng, tx, capdrop_ok):
             add(depth=1, kinds=["file", "absent"], env=k)
             add(depth=1, kinds=["absent", "absent"], env=k, user="absent")
     # depth 1..8, the only file at each level; then two files (the nearer one wins)
-    for d in range(1, 9):
+    for d in ((1, 2, 3, 5, 8) if quick else range(1, 9)):
         for j in range(d + 1):
             kinds = ["absent"] * (d + 1)
             kinds[j] = "file"
@@ -632,7 +675,7 @@ def discrimination(world: World, out):
     t = {"u": tx.layer(rng, "u", "U", "allow", True), "p": tx.layer(rng, "p", "P", "deny", True),
          "e": tx.layer(rng, "e", "E", "ask", True)}
     for k in t:
-        t[k] += f"set log {tx.logs}/{k}.log\n"
+        t[k] = subst(t[k] + f"set log {tx.gen_logs}/{k}.log\n", world.root)
     t["u"] += "set log-full\n"
     vecs = {}
     for r in range(4):
@@ -655,14 +698,26 @@ def discrimination(world: World, out):
 
 
 # ------------------------------------------------------------------------------------------------ one case
+def subst(x, root):
+    if isinstance(x, str):
+        return x.replace("@ROOT@", root)
+    if isinstance(x, list):
+        return [subst(y, root) for y in x]
+    if isinstance(x, dict):
+        return {k: subst(v, root) for k, v in x.items()}
+    return x
+
+
 def check_case(world: World, model, out, spec, line_cache, xcheck):
+    raw_spec = spec
+    spec = subst(spec, world.root)
     b = build(world, spec)
     what, val = intent(spec, b)
     via = spec["cwd_via"]
     if spec["env"]["kind"] == "relative" and via == "process":
         via = "json"
     proj_level = next((idx for idx, (_, _, t) in enumerate(b["chain"]) if t is not None), None)
-    rec = {"spec": spec, "cwd": b["cwd"], "DIPPY_CONFIG": b["envv"], "intent": [what, val]}
+    rec = {"spec": raw_spec, "cwd": b["cwd"], "DIPPY_CONFIG": b["envv"], "intent": [what, val]}
     present = "".join(c for c, t in zip("upe", val) if t is not None) if what == "layers" else what
     canonical_case = [spec["user"]["kind"], [l["kind"] for l in spec["levels"]], spec["env"]["kind"], spec["under_home"],
                       spec["cwd_mode"], spec["cwd_via"], spec["depth"],
@@ -685,9 +740,15 @@ def check_case(world: World, model, out, spec, line_cache, xcheck):
     texts_with_log = [t for t in [spec["user"]["text"], spec["env"]["text"], spec["dotdir_text"]] +
                       [l.get("text") or "" for l in spec["levels"]] if t and "set log " in t]
     with_log = bool(texts_with_log)
-    got = world.run_vector(b["cwd"], via, world.home, b["envv"], with_log)
+    got_t = world.submit_vector(b["cwd"], via, world.home, b["envv"])
+    want_t = world.submit_concat(cat3(val)) if what == "layers" else None
+    got = dict(got_t())
+    want = dict(want_t()) if want_t else None
+    if with_log:
+        got.update(world.log_probe(b["cwd"], via, world.home, b["envv"]))
+        if want is not None:
+            want.update(world.concat_log_probe(cat3(val)))
     if what == "layers":
-        want = world.concat_vector(cat3(val), with_log)
         if got != want:
             diff = {k: [got[k], want[k]] for k in got if got[k] != want[k]}
             pre = {k: v for k, v in got.items() if not k.startswith("log:files")}
@@ -850,14 +911,18 @@ def run(tier, seed, replay=None):
             specs = [spec]
         else:
             discrimination(world, out)
-            specs = systematic(rng, world.tx, capdrop_ok)
+            specs = systematic(rng, world.tx, capdrop_ok, quick=(tier == "quick"))
             out.extra["systematic_cases"] = len(specs)
-            total = 240 if tier == "quick" else 3000
+            total = 200 if tier == "quick" else 3000
             while len(specs) < total:
                 specs.append(rand_spec(rng, world.tx, len(specs), capdrop_ok))
         all_texts = []
         for spec in specs:
             model = check_case(world, model, out, spec, line_cache, xcheck)
+            fresh = sum(1 for v in out.violations if v.get("call_site") not in (CS_DEFAULT, CS_NOUSER, CS_PROJ_DENIED))
+            if fresh + len(out.disagreements) > 40:
+                out.notes.append(f"stopped after case {spec['id']}: more than 40 failures already recorded")
+                break
             all_texts += [spec["user"]["text"], spec["env"]["text"]] + [l["text"] for l in spec["levels"] if l.get("text")]
         if not replay:
             parse_correspondence(world, model, out, all_texts if tier != "quick" else all_texts[:400], line_cache, rng)
